@@ -76,7 +76,41 @@ func TestGovcReplay(t *testing.T) {
 	}
 	h = append(h, op{true, 0x80000000, 1}, op{false, 0x0b00ff00, 24})
 	hists = append(hists, h)
+	// duplicates in list mode (added twice, removed once: gone), also with another range in between
+	hists = append(hists, []op{{true, 0x0a010200, 24}, {true, 0x0a010200, 24}, {false, 0x0a010200, 24}})
+	hists = append(hists, []op{{true, 0xc0a80700, 24}, {true, 0x0a000000, 8}, {true, 0xc0a807ff, 24}, {false, 0xc0a80700, 24}})
+	// /1 ranges across the switch
+	var h1 []op
+	h1 = append(h1, op{true, 0x80000000, 1})
+	for i := 0; i < 300; i++ {
+		h1 = append(h1, op{true, 0x0c000000 + uint32(i)<<8, 32})
+	}
+	h1 = append(h1, op{true, 0x00000000, 1}, op{false, 0x80000000, 1})
+	hists = append(hists, h1)
 	found := 0
+	// invalid arguments change nothing (and are rejected)
+	{
+		f := NewIPv4Filter()
+		f.Add(govcCIDR(0x0a000000, 8))
+		f.Add(govcCIDR(0, 0))
+		for _, bad := range []*net.IPNet{
+			{IP: net.ParseIP("::"), Mask: net.CIDRMask(0, 128)},
+			{IP: net.IPv4(10, 0, 0, 0).To4(), Mask: net.IPMask{255, 0, 255, 0}},
+			{IP: net.IPv4(10, 0, 0, 0).To4(), Mask: nil},
+			{IP: net.ParseIP("2001:db8::"), Mask: net.CIDRMask(32, 128)},
+		} {
+			errA, errR := f.Add(bad), f.Remove(bad)
+			if errA == nil || errR == nil {
+				found++
+				fmt.Printf("REPRODUCED obligation=%s: Add/Remove(%v) returned %v / %v, want ErrInvalidIPv4CIDR\n", ob, bad, errA, errR)
+			}
+			if !f.Contains(net.IPv4(192, 168, 0, 1)) {
+				found++
+				fmt.Printf("REPRODUCED obligation=%s: after Remove(%v) (not an IPv4 CIDR) 0.0.0.0/0 no longer matches\n", ob, bad)
+				break
+			}
+		}
+	}
 	for hi, hist := range hists {
 		f := NewIPv4Filter()
 		or := &govcOracle{set: map[govcPfx]bool{}}
